@@ -33,7 +33,8 @@ HEADER = ('From Coq Require Import ZArith NArith List Bool. Import ListNotations
           'From SV Require Import Common.Int32 C02deep.Syntax C02deep.Sem C02loop.Corr.\n'
           'Open Scope Z_scope.\n')
 COLS = ['status', 'wf', 'licm', 'extract', 'alg', 'ive', 'sr', 'old_K_licm_divmod', 'old_K_guard_used', 'K_iv', 'K_iv_known', 'K_iv_exact',
-        'K_base_dropped', 'K_nested_break', 'K_sr_defs', 'runs_same', 'runs_differ', 'trap_prefix_ok', 'trap_prefix_lost']
+        'K_base_dropped', 'K_nested_break', 'K_sr_defs', 'runs_same', 'runs_differ', 'trap_prefix_ok', 'trap_prefix_lost',
+        'thm_instance']
 MIN32, MAX32 = -2 ** 31, 2 ** 31 - 1
 
 
@@ -436,10 +437,14 @@ def loops(ck, tier, seed):
     ck.extra_cov['loop_tie'] = nstat
     ck.extra_cov['loop_subpasses_fired'] = {c: tot[c] for c in ('licm', 'extract', 'alg', 'ive', 'sr')}
     ck.extra_cov['loop_classes_met'] = {c: tot[c] for c in COLS[7:15]}
-    ck.extra_cov['loop_sanity_runs'] = {c: tot[c] for c in COLS[15:]}
+    ck.extra_cov['loop_sanity_runs'] = {c: tot[c] for c in COLS[15:19]}
+    # pairs (before, after) of the REAL pass that are literally instances of the function-level theorem
+    # C02loop_pass_preserves (decidable domain evaluated in coqc, Cover.in_theorem_domain)
+    ck.extra_cov['loop_function_theorem_instances'] = {'instances': tot['thm_instance'], 'of': nstat['same']}
     ck.obligation('C02loop tie ran', nstat['same'] > 0, json.dumps(nstat))
-    print('C02loop tie: %s; sub-passes fired %s; classes met %s; sanity runs %s'
-          % (nstat, ck.extra_cov['loop_subpasses_fired'], ck.extra_cov['loop_classes_met'], ck.extra_cov['loop_sanity_runs']))
+    print('C02loop tie: %s; sub-passes fired %s; classes met %s; sanity runs %s; function-level theorem instances %s'
+          % (nstat, ck.extra_cov['loop_subpasses_fired'], ck.extra_cov['loop_classes_met'], ck.extra_cov['loop_sanity_runs'],
+             ck.extra_cov['loop_function_theorem_instances']))
 
 
 def run(tier='quick', seed=1, replay=None):
